@@ -432,3 +432,97 @@ Proof.
   apply (continue_session calls fastloop am _ [] true (init_inv am 0)); [|exact Hv].
   apply (contig_geom calls _ true 0 dest); cbn; try lia; try reflexivity. exact Hc.
 Qed.
+
+(* ---- scheme (b): ring buffer of at least 65536 + 2*maxBlock bytes ----
+   The caller decodes at the current position q of the ring [rb, rb+R) and restarts at rb when fewer
+   than maxBlock bytes remain (examples/blockStreaming_ringBuffer.c).  With R >= 65536 + 2*maxBlock the
+   wrapped block never overlaps the 64 KB that offsets can still reach.  (lz4.h asks for
+   LZ4_DECODER_RING_BUFFER_SIZE(maxBlock) = 65536 + 14 + maxBlock only: see the header of this file.) *)
+Section Ring.
+  Variables (rb R M : Z).
+  Hypothesis HM : 0 <= M.
+  Hypothesis HR : 65536 + 2 * M <= R.
+
+  Definition ring_pos (q : Z) : Z := if R - q <? M then 0 else q.
+  Fixpoint ring_calls (q : Z) (calls : list scall) : Prop :=
+    match calls with
+    | [] => True
+    | (d, cap, B, D) :: rest =>
+      d = rb + ring_pos q /\ cap = M /\ Z.of_nat (length D) <= M /\
+      ring_calls (ring_pos q + Z.of_nat (length D)) rest
+    end.
+
+  Definition ring_inv (st : sdstate) (pok : bool) (total q : Z) : Prop :=
+    (sd_prefixSize st = 0 /\ sd_extDictSize st = 0 /\ total = 0 /\ q = 0) \/
+    (0 < sd_prefixSize st /\ sd_prefixEnd st = rb + sd_prefixSize st /\ sd_prefixSize st <= R /\
+     sd_prefixSize st <= total /\ 0 <= sd_extDictSize st /\
+     ((q = sd_prefixSize st /\
+       ((sd_extDictSize st = 0 /\ total = sd_prefixSize st) \/
+        (pok = true /\ sd_externalDict st = rb /\ 65536 + M <= sd_extDictSize st /\
+         sd_prefixSize st + sd_extDictSize st <= total)))
+      \/ (q = 0 /\ R - sd_prefixSize st < M))).
+
+  Ltac fin := first [ lia | reflexivity | assumption | split; fin | left; fin | right; fin ].
+
+  Lemma ring_step st pok total q n :
+    ring_inv st pok total q -> 0 <= n <= M ->
+    call_geom st pok total (rb + ring_pos q) M n /\
+    ring_inv (sess_next st (rb + ring_pos q) n) (pok_next st pok (rb + ring_pos q) n) (total + n) (ring_pos q + n).
+  Proof.
+    intros Hi Hn. unfold ring_pos.
+    destruct Hi as [(Hp & He & Ht & Hq) | (Hp & Hpe & HpR & Hpt & He & Hcase)].
+    - (* fresh stream *)
+      subst q. assert (E : (R - 0 <? M) = false) by lia. rewrite E.
+      unfold call_geom, sess_next, fail_state, next_state, pok_next, ring_inv. cbv zeta.
+      assert (E0 : (sd_prefixSize st =? 0) = true) by lia. rewrite E0.
+      split; [split; [lia | exact Ht]|].
+      destruct (n <=? 0) eqn:En; cbn [sd_prefixSize sd_extDictSize sd_prefixEnd sd_externalDict]; fin.
+    - assert (E0 : (sd_prefixSize st =? 0) = false) by lia.
+      assert (Jump : forall d, d = rb -> R - sd_prefixSize st < M ->
+                call_geom st pok total d M n /\
+                ring_inv (sess_next st d n) (pok_next st pok d n) (total + n) (0 + n)).
+      { intros d Hd Hw. subst d.
+        assert (Epe : (sd_prefixEnd st =? rb) = false) by lia.
+        unfold call_geom, sess_next, fail_state, next_state, pok_next, ring_inv, disjoint. cbv zeta.
+        rewrite E0, Epe. split.
+        - split; [lia|]. split; [lia|]. right. right. left. lia.
+        - destruct (n <=? 0) eqn:En; cbn [sd_prefixSize sd_extDictSize sd_prefixEnd sd_externalDict negb]; right; fin. }
+      destruct Hcase as [(Hq & Hext) | (Hq & Hw)].
+      + subst q. destruct (R - sd_prefixSize st <? M) eqn:Ew.
+        * replace (rb + 0) with rb by lia. apply Jump; [reflexivity | lia].
+        * (* contiguous continuation inside the lap *)
+          assert (Epe : (sd_prefixEnd st =? rb + sd_prefixSize st) = true) by lia.
+          unfold call_geom, sess_next, fail_state, next_state, pok_next, ring_inv, disjoint, ext_need. cbv zeta.
+          rewrite E0, Epe.
+          destruct Hext as [(He0 & Htot) | (Hpk & Hed & He64 & Hsum)].
+          -- split; [split; [lia|]; split; [left; lia | lia]|].
+             destruct (n <=? 0) eqn:En; cbn [sd_prefixSize sd_extDictSize sd_prefixEnd sd_externalDict]; right; fin.
+          -- split.
+             ++ split; [lia|]. split; [|lia].
+                destruct (Z_le_gt_dec 65535 (sd_prefixSize st)); [right; left; lia | right; right; repeat split; lia].
+             ++ destruct (n <=? 0) eqn:En; cbn [sd_prefixSize sd_extDictSize sd_prefixEnd sd_externalDict]; right;
+                  (split; [lia|]; split; [lia|]; split; [lia|]; split; [lia|]; split; [lia|]; left; split; [lia|]; right; repeat split; try assumption; lia).
+      + subst q. assert (E : (R - 0 <? M) = false) by lia. rewrite E.
+        replace (rb + 0) with rb by lia. apply Jump; [reflexivity | lia].
+  Qed.
+
+  Lemma ring_geom : forall calls st pok total q,
+    ring_inv st pok total q -> ring_calls q calls -> session_geom st pok total calls.
+  Proof.
+    induction calls as [|[[[d cap] B] D] rest IH]; intros st pok total q Hi Hc; [exact I|].
+    cbn [ring_calls session_geom] in *. destruct Hc as (Hd & Hcap & Hn & Hrest). subst d cap.
+    destruct (ring_step st pok total q (Z.of_nat (length D)) Hi ltac:(lia)) as [G1 G2].
+    split; [exact G1|]. apply (IH _ _ _ _ G2 Hrest).
+  Qed.
+
+  Theorem continue_session_ring :
+    forall (calls : list scall) (fastloop : bool) (am : mem),
+      ring_calls 0 calls -> session_valid [] calls ->
+      session_run fastloop am (setStreamDecode 0 0) calls = expected calls.
+  Proof.
+    intros calls fastloop am Hc Hv.
+    apply (continue_session calls fastloop am _ [] true (init_inv am 0)); [|exact Hv].
+    apply (ring_geom calls _ true 0 0); [|exact Hc].
+    left. cbn. repeat split; reflexivity.
+  Qed.
+End Ring.
